@@ -286,6 +286,17 @@ class Ledgers:
             out |= self.kinds.get(k, set())
         return out
 
+    def write_keys(self, f: FuncInfo, n: ast.AST) -> list[tuple]:
+        """Identities of the containers the statement / call `n` of `f` adds something to."""
+        out: list[tuple] = []
+        for cont, _w in _grow_writes(n):
+            out += _ledger_keys(self.repo, self.T, f, cont)
+        return out
+
+    def mixed(self, key: tuple) -> bool:
+        """Nodes and edges travel through this one container: replaying it keeps their relative order."""
+        return {"node", "edge"} <= self.kinds.get(key, set())
+
     def write_kinds(self, f: FuncInfo, n: ast.AST) -> set[str]:
         """Kinds ('node' / 'edge') of graph elements the statement / call `n` of `f` records in a ledger."""
         out: set[str] = set()
@@ -334,6 +345,86 @@ class Ledgers:
         return changed
 
 
+def _ledger_event_kinds(led: "Ledgers", reg: "Registries", f: FuncInfo, n: ast.AST) -> set[str]:
+    """Event kinds of a statement / call that adds something to a container:
+      rnode  the container is a registry the edge decisions consult (the element is registered when it is put there);
+      lnode  a node travels through a ledger that also carries the edges (replayed in order), or nothing is known about what the
+             edge decisions consult;
+      ledge  an edge is recorded in a ledger."""
+    out: set[str] = set()
+    for k in led.write_keys(f, n):
+        kinds = led.kinds.get(k, set())
+        if k in reg.keys:
+            out.add("rnode")
+        if "edge" in kinds:
+            out.add("ledge")
+        if "node" in kinds and (led.mixed(k) or not reg.known):
+            out.add("lnode")
+    return out
+
+
+class Registries:
+    """What the decision to create an edge consults: the graph (`g.has_node(a)`, `a in g`) and / or containers (`a in self._seen`),
+    read off the path conditions of the edge events (boolean helpers followed one level).  A module counts as registered when
+    the consulted registry has it - not when it has been put on some list that is turned into nodes later."""
+
+    def __init__(self) -> None:
+        self.graph = False
+        self.keys: set[tuple] = set()
+
+    @property
+    def known(self) -> bool:
+        return self.graph or bool(self.keys)
+
+    def collect(self, repo: Repo, T, f: FuncInfo, e: ast.AST, depth: int = 0) -> None:
+        for x in ast.walk(e):
+            target = None
+            if isinstance(x, ast.Call) and isinstance(x.func, ast.Attribute) and x.func.attr in ("has_node", "__contains__"):
+                target = x.func.value
+            elif isinstance(x, ast.Compare) and len(x.ops) == 1 and isinstance(x.ops[0], (ast.In, ast.NotIn)):
+                target = x.comparators[0]
+            elif isinstance(x, ast.Call) and depth < 2:
+                try:
+                    cs, _how = T.callees(f, x, byname_fallback=False)
+                except Exception:  # noqa: BLE001
+                    cs = []
+                for h in cs:
+                    if not h.is_abstract and not isinstance(h.node, ast.Lambda):
+                        for st in h.node.body:
+                            self.collect(repo, T, h, st, depth + 1)
+            if target is None:
+                continue
+            if _through_digraph(T, f, target):
+                self.graph = True
+            else:
+                self.keys |= set(_ledger_keys(repo, T, f, _ledger_base(target)))
+
+
+def _registries(repo: Repo, T, led: "Ledgers", funcs: list[FuncInfo]) -> Registries:
+    from core.guards import atoms_of
+
+    reg = Registries()
+    for f in funcs:
+        try:
+            v = inline_view(repo, f, T)
+        except Exception:  # noqa: BLE001
+            continue
+        for n in own_nodes(v.node):
+            edge = isinstance(n, ast.Call) and isinstance(n.func, ast.Attribute) and n.func.attr in EDGE_ADDERS and _graph_call(T, v, n)
+            if not edge and not (_grow_writes(n) and "edge" in led.write_kinds(v, n)):
+                continue
+            try:
+                atoms = atoms_of(guard_formula(v, n))
+            except Exception:  # noqa: BLE001
+                continue
+            for a in atoms:
+                try:
+                    reg.collect(repo, T, v, ast.parse(a, mode="eval").body)
+                except SyntaxError:
+                    continue
+    return reg
+
+
 def _graph_closures(repo: Repo) -> dict:
     key = "_c15_graph_closures"
     if key not in repo.__dict__:
@@ -353,18 +444,19 @@ def _graph_closures(repo: Repo) -> dict:
                     continue
             if not changed:
                 break
-        writers: dict[str, set[FuncInfo]] = {"lnode": set(), "ledge": set()}
-        attr_names = {k[2] for k in led.kinds if k[0] == "attr"}
+        reg = _registries(repo, T, led, [f for f in repo.all_functions() if f in kind_funcs["edge"] and not isinstance(f.node, ast.Lambda)])
+        writers: dict[str, set[FuncInfo]] = {"lnode": set(), "ledge": set(), "rnode": set()}
+        attr_names = {k[2] for k in led.kinds if k[0] == "attr"} | {k[2] for k in reg.keys if k[0] == "attr"}
         if attr_names:
             for f in repo.all_functions():
                 for n in own_nodes(f.node):
                     for cont, _w in _grow_writes(n):
                         if isinstance(cont, ast.Attribute) and cont.attr in attr_names:
-                            for kd in led.kinds_of(f, cont):
-                                writers["l" + kd].add(f)
+                            for kd in _ledger_event_kinds(led, reg, f, n):
+                                writers[kd].add(f)
         for k, fs in writers.items():
             kind_funcs[k] = _closure(repo, fs) if fs else set()
-        repo.__dict__[key] = {"muts": muts, "kind_funcs": kind_funcs, "freeze_funcs": _closure(repo, freezers), "ledgers": led}
+        repo.__dict__[key] = {"muts": muts, "kind_funcs": kind_funcs, "freeze_funcs": _closure(repo, freezers), "ledgers": led, "registries": reg}
     return repo.__dict__[key]
 
 
@@ -387,6 +479,7 @@ class GraphBuild:
         self.kind_funcs = cl["kind_funcs"]
         self.freeze_funcs = cl["freeze_funcs"]
         self.ledgers: Ledgers = cl["ledgers"]
+        self.registries: Registries = cl["registries"]
         for _round in range(3):  # ledgers that are locals of this very view
             try:
                 if not self.ledgers.discover(self.view):
@@ -414,9 +507,9 @@ class GraphBuild:
                         for el in (t.elts if isinstance(t, (ast.Tuple, ast.List)) else [t]):
                             if isinstance(el, (ast.Subscript, ast.Attribute)) and _through_digraph(T, v, el.value):
                                 out.setdefault("other", []).append(c)  # type: ignore[arg-type]
-                if isinstance(c, ast.Call) or c is s:
-                    for kd in sorted(self.ledgers.write_kinds(v, c)):
-                        out.setdefault("l" + kd, []).append(c)  # type: ignore[arg-type]
+                if (isinstance(c, ast.Call) or c is s) and _grow_writes(c):
+                    for kd in sorted(_ledger_event_kinds(self.ledgers, self.registries, v, c)):
+                        out.setdefault(kd, []).append(c)  # type: ignore[arg-type]
                 if not isinstance(c, ast.Call):
                     continue
                 if _lib_name(self.repo, v, c) == "networkx.freeze":
@@ -464,6 +557,16 @@ def _derived(v: FuncInfo, seed: str) -> set[str]:
                     if key is not None and key not in d:
                         d.add(key)
                         changed = True
+            # a container filled once per element of a derived collection holds (a projection of) it as well
+            for cont, w in _grow_writes(n):
+                key = cont.id if isinstance(cont, ast.Name) else norm(cont) if isinstance(cont, ast.Attribute) else None
+                if key is None or key in d:
+                    continue
+                per_element = any(mentions(it) for lp in loops_around(w, v.node) for _t, it in iter_sources(lp))
+                bulk = isinstance(w, ast.Call) and w.func.attr in ("extend", "update", "extendleft") and any(mentions(a) for a in w.args)  # type: ignore[union-attr]
+                if per_element or bulk:
+                    d.add(key)
+                    changed = True
     return d
 
 
@@ -614,9 +717,24 @@ def order_verdict(repo: Repo, fn: FuncInfo, mod_param: str, imp_param: str, imp_
             u = _unit_over(v, c, d_imp, repo, T, imp_classes)
             if u is not None and u not in edge_units:
                 edge_units.append(u)
+    # ledgers that the import edges travel through as well: a node request put there is registered in its turn, before the edge
+    # requests that follow it (a list of modules that is turned into nodes later is no such ledger)
+    shared: set[tuple] = set()
+    for s, e in ev.items():
+        for c in e.get("ledge", []):
+            if _grow_writes(c) and _unit_over(v, c, d_imp, repo, T, imp_classes) is not None:
+                shared |= set(gb.ledgers.write_keys(v, c))
+
+    def in_turn(c: ast.AST) -> bool:
+        keys = gb.ledgers.write_keys(v, c) if _grow_writes(c) else []
+        return not keys or not gb.registries.known or bool(set(keys) & shared)
+
     opaque: list[tuple[ast.AST, ast.AST]] = []  # simple statements that register modules *and* create import edges (statement, call)
     for s, e in ev.items():
-        for c in [*e.get("node", []), *e.get("lnode", [])]:
+        # a module is registered when the registry the edge decisions consult gets it: the graph itself (add_node), a container
+        # (`self._seen`); a node request travelling through a ledger that carries the edge requests too is registered in its turn
+        direct = e.get("node", []) if (gb.registries.graph or not gb.registries.known) else []
+        for c in [*direct, *e.get("rnode", []), *[x for x in e.get("lnode", []) if in_turn(x)]]:
             u = _unit_over(v, c, d_mod, repo, T)
             if u is not None and not isinstance(u, (ast.For, ast.AsyncFor, ast.While)) and any(u is x for x in edge_units) and all(u is not o for o, _c in opaque):
                 opaque.append((u, c))
